@@ -132,3 +132,11 @@ remove_real = dict(
     bounded=dict(bound='2 sink arrangements x backend sleeping / polling x K = 0..4 (thorough: 0..10) statements x 3 (thorough: 6) cycles; one OS schedule per case', form='b'),
     dropped=[], trusted=['one OS schedule per case: the contract units LM.* / SM.* / FE.remove_logger_blocking / BW.cleanup_loggers carry the "for every interleaving" part'], min_obligations=1, timeout=1500)
 UNITS += [remove_real]
+def _threads(series, extra):
+    return dict(
+        name='BE.threads_real[%s]' % series, primary='C03', props={'C03', 'C20', 'C01', 'C02'}, kind='L', funcs=[], enforce=None,
+        desc='several real frontend threads (%s queue) with the REAL backend thread, forked child per case: every statement of every thread written exactly once, uncorrupted, in thread order - also when the thread exited before it was read - and the contexts of exited threads reclaimed afterwards (a SAMPLE of schedules: the for-every-interleaving argument is the contract units)' % series,
+        native=dict(cpp='threads_real.cpp', file='include/quill/backend/BackendWorker.h', function='the whole frontend / backend pipeline under real concurrency', defs_quick=['NMAX=400'] + extra, defs_thorough=['NMAX=5000'] + extra),
+        bounded=dict(bound='4 thread counts x 4 statement counts (up to 400; thorough: 5000) x backend sleeping / polling; one OS schedule per case', form='b'),
+        dropped=[], trusted=['one OS schedule per case'], min_obligations=1, timeout=1500)
+UNITS += [_threads('unbounded blocking', []), _threads('bounded blocking', ['SERIES_BOUNDED'])]
